@@ -88,6 +88,7 @@ fn valid(dec: &str, rng: &mut rand::rngs::StdRng) -> Vec<u8> {
             passkey_transports::hid::Message::new(0x0102_0304, passkey_transports::hid::Command::Cbor, &payload).unwrap().send(&mut wire).unwrap();
             wire.chunks(64).flat_map(|p| [(p.len() as u16).to_be_bytes().to_vec(), p.to_vec()].concat()).collect()
         }
+        "salts" => rnd(rng, 64),
         "fingerprint" => b"B3:5B:68:D5:CE:84:50:55:7C:6A:55:FD:64:B5:1F:EA:C1:10:CB:36:D6:A3:52:1C:59:48:DB:3A:38:0A:34:A9".to_vec(),
         "psl" => b"www.example.co.uk".to_vec(),
         _ => b"login.example.com".to_vec(),
@@ -398,6 +399,11 @@ fn mutate(dec: &str, m: &str, arg: &str, base: &[u8], rng: &mut rand::rngs::StdR
             }
             t.into_bytes()
         }
+        "setlen" => {
+            // a fixed-size input given with another length (content repeated / cut)
+            let n: usize = arg.parse().unwrap();
+            if b.is_empty() { vec![0x42; n] } else { b.iter().cycle().take(n).copied().collect() }
+        }
         "manyentries" => b,     // grown in the child (expand_many), the inputs file carries the valid encoding only
         "bigseq" => {
             // arg = "<present>:<declared>": a byte string or list member re-encoded as a definite-length array that
@@ -508,7 +514,14 @@ fn decode(dec: &str, b: &[u8]) -> bool {
         "gaReq" => ciborium::de::from_reader::<get_assertion::Request, _>(b).is_ok(),
         "gaResp" => ciborium::de::from_reader::<get_assertion::Response, _>(b).is_ok(),
         "info" => ciborium::de::from_reader::<get_info::Response, _>(b).is_ok(),
-        "hmac" => ciborium::de::from_reader::<HmacGetSecretInput, _>(b).is_ok(),
+        "hmac" => match ciborium::de::from_reader::<HmacGetSecretInput, _>(b) {
+            Ok(v) => {
+                // what the authenticator does next with the member: the salts (32 or 64 bytes) out of saltEnc
+                let _ = passkey_types::ctap2::extensions::HmacSecretSaltOrOutput::try_from(&v.salt_enc[..]);
+                true
+            }
+            Err(_) => false,
+        },
         "cose" => {
             use coset::CborSerializable;
             match coset::CoseKey::from_slice(b) {
@@ -539,6 +552,7 @@ fn decode(dec: &str, b: &[u8]) -> bool {
             }
             any
         }
+        "salts" => passkey_types::ctap2::extensions::HmacSecretSaltOrOutput::try_from(b).is_ok(),
         "fingerprint" => passkey_client::valid_fingerprint(String::from_utf8_lossy(b).as_ref()).is_ok(),
         "psl" => {
             use public_suffix::EffectiveTLDProvider;
